@@ -3,7 +3,7 @@ import genb
 from vlib import rnd_u64, U64
 from props.codec_common import CODEC_TRUSTED, split_out
 
-THEOREMS = ["C08_update_exact", "C08_update_total", "C08_frame"]
+THEOREMS = ["C08_update_exact", "C08_update_total", "C08_frame", "C08_code_structure", "C08_code_structure_wf"]
 RELEASE = True
 OFFSET = 946684800000
 RULE = ("OPS <clock> <bundle> ; UPD <node> <residence>: every (limit, count) pair of the hop-count block (65 536, exhaustive) and the "
@@ -99,6 +99,12 @@ def cases(rng, tier):
         out.append(_line(_bundle(hop=hop, age=age, prev=rng.random() < 0.6, t=t, life=L, seq=rng.choice([0, 0, 1, 40, U64 - 1, rnd_u64(rng)]),
                                  bflags=tuple(rng.choice([0, 0, 0, 1, 4, 16, 0xF0, 0xFF, 8, rng.randrange(256)]) for _ in range(3))), now, node, rt,
                          lifens=rng.choice([None, None, None, 1, 999999, rng.randrange(1000000)])))
+    # OPSA: the same call answered by the second model (update_extensions written with the block-level operations hop_count_get /
+    # _increase / _exceeded, previous_node_update, bundle_age_get / _update of Model/Api.v; C08_code_structure proves the two equal)
+    for l in list(out[::3 if tier == "quick" else 2]):
+        la = "OPSA" + l[3:]
+        _B[la] = _B[l]
+        out.append(la)
     return out
 
 
